@@ -10,7 +10,7 @@ def run():
     res = ctx.coq_build(["all"], timeout=3000) if False else None
     vlib.gen_coqproject()
     with vlib.BuildLock():
-        rc, out, dt = vlib.sh("coq_makefile -f _CoqProject -o Makefile && make -j16", cwd=vlib.COQ, timeout=3000)
+        rc, out, dt = vlib.sh("coq_makefile -f _CoqProject -o Makefile && make -j16 -k", cwd=vlib.COQ, timeout=3000)
     ctx.log(f"coq full build rc={rc} in {dt:.1f}s")
     if rc != 0:
         print(out[-3000:])
